@@ -272,6 +272,10 @@ def finish(pid, results, *, explanation, bound, symbolic, assumptions, source_fi
         sys.exit(EXIT_HARNESS if herr else EXIT_OK)
 
     os.makedirs(os.path.join(VERIF, "evidence", "replay"), exist_ok=True)
+    # replay files of earlier runs of this property are stale (they describe another tree): only this run's are kept
+    for name in os.listdir(os.path.join(VERIF, "evidence", "replay")):
+        if name.startswith(pid + "_") and name.endswith(".json"):
+            os.remove(os.path.join(VERIF, "evidence", "replay", name))
     new_violations = []
     lines = []
     seen_known = set()
